@@ -557,6 +557,51 @@ def rule_finding_owns_rule(ctx, rep, rule_id="R-FINDING-OWNS-RULE"):
         raise AnalysisError(f"only {n} Finding(rule=...) constructions found in the result readers")
 
 
+def rule_fresh_visitor(ctx, rep, rule_id="R-FRESH-VISITOR"):
+    """Shared by C06 / C09 / C18."""
+    rep.rule(
+        rule_id,
+        "a libcst visitor that gathers into its own attributes while it walks (comments seen, names found, nodes to replace) is built for the "
+        "one walk it is used for: in every `<node>.visit(V)`, V is a constructor call, a local of the calling function bound to one, or the "
+        "visitor itself (`self`).  A gathering visitor kept in an attribute and walked again carries what it gathered for the previous node "
+        "(a `# noqa` comment of an earlier call then disables every later call of the file)",
+        min_instances=15,
+    )
+    n = 0
+    for fn in ctx.prog.live_functions():
+        if not fn.module.name.startswith(("core_codemods.", "codemodder.")) or fn.module.name.startswith("codemodder.codemods.test"):
+            continue
+        r = None
+        for c in walk_no_nested(fn.node):
+            if not (isinstance(c, ast.Call) and isinstance(c.func, ast.Attribute) and c.func.attr == "visit" and len(c.args) == 1 and not c.keywords):
+                continue
+            v = c.args[0]
+            n += 1
+            r = r or ctx.resolver(fn)
+            ok = True
+            why = ""
+            if isinstance(v, ast.Call) or (isinstance(v, ast.Name) and v.id in ("self",)):
+                ok = True
+            elif isinstance(v, ast.Name):
+                src = r.expand(v)
+                ok = isinstance(src, ast.Call) or v.id in fn.params()  # a parameter: judged where the caller builds it
+            elif isinstance(v, ast.Attribute):
+                # kept in an attribute: fine only for a visitor that gathers nothing
+                cls_q = r.type_of(v)
+                gathers = True
+                if cls_q in ctx.prog.classes:
+                    gathers = False
+                    for cq in [cls_q] + [m for m in ctx.prog.mro(cls_q) if m in ctx.prog.classes]:
+                        for m in ctx.prog.classes[cq].methods.values():
+                            if m.name.startswith(("visit_", "leave_", "on_visit", "on_leave")) and self_attr_mutations(m):
+                                gathers = True
+                ok = not gathers
+                why = f"`{unparse(c)[:60]}` walks with a visitor kept in `{unparse(v)}`: what it gathered on an earlier walk is still there"
+            rep.check(rule_id, fn.qname, fn.loc(c), ok, f"visit({unparse(v)[:30]})", why)
+    if n < 15:
+        raise AnalysisError(f"only {n} visitor walks found")
+
+
 def check(ctx, rep):
     rep.explanation = (
         "Cross-talk between codemods of one run can only travel through shared state: the execution context's containers, objects "
@@ -584,6 +629,7 @@ def check(ctx, rep):
     rule_store_coherent(ctx, rep)
     rule_memo_coherent(ctx, rep)
     rule_finding_owns_rule(ctx, rep)
+    rule_fresh_visitor(ctx, rep)
     rep.not_covered += [
         "semgrep_prefilter_results is computed once before any rewrite and gates each later detector run: whether one codemod's "
         "rewrite can enable another's rule needs semgrep semantics (declined; no enabling pair could be constructed)",
